@@ -631,16 +631,35 @@ func main() {
 					Detail: "Parse(Format(a)) != a for a well-formed archive"})
 			}
 			as = append(as, a)
-			reqs = append(reqs, "format "+archiveReq(a), "wf "+archiveReq(a))
-			impls = append(impls, common.Hex(txtar.Format(a)), "true")
+			reqs = append(reqs, "format "+archiveReq(a), "formatidx "+archiveReq(a), "wf "+archiveReq(a))
+			impls = append(impls, common.Hex(txtar.Format(a)), common.Hex(txtar.Format(a)), "true")
+		}
+		// arbitrary (mostly not well-formed) archives: Format against the line-level and the
+		// statement-level model (fmt.Fprintf with the regenerated format string: '%' in a
+		// name is data), and the model's wf_archive against the runner's reading of it
+		for i := 0; i < nStruct/8; i++ {
+			a := &txtar.Archive{Comment: genText(r)}
+			for k, n := 0, r.Intn(4); k < n; k++ {
+				name := genName(r)
+				if r.Chance(1, 3) {
+					name += common.Pick(r, []string{"%s", "%", "%d", "%%", "\n", "%!s(MISSING)", "\r"})
+				}
+				a.Files = append(a.Files, txtar.File{Name: name, Data: genText(r)})
+			}
+			res.Count("src:any-archive")
+			fm := common.Safely(func() string { return common.Hex(txtar.Format(a)) })
+			as = append(as, a)
+			reqs = append(reqs, "format "+archiveReq(a), "formatidx "+archiveReq(a), "wf "+archiveReq(a))
+			impls = append(impls, fm, fm, fmt.Sprint(wfArchive(a)))
 		}
 		ans, err := m.Ask(reqs)
 		if err == nil {
 			for i := range ans {
 				if ans[i] != impls[i] {
-					a := as[i/2]
+					a := as[i/3]
+					res.Count("mismatch:" + strings.Fields(reqs[i])[0])
 					res.Violate(common.Violation{Kind: "correspondence", Oracle: strings.Fields(reqs[i])[0],
-						Input: map[string]string{"archive": archiveReq(a)}, Model: ans[i], Impl: impls[i], Key: "fmt:" + archiveReq(a)})
+						Input: map[string]string{"archive": archiveReq(a)}, Model: ans[i], Impl: impls[i], Key: "fmt:" + strings.Fields(reqs[i])[0] + ":" + archiveReq(a)})
 				}
 			}
 		}
